@@ -106,5 +106,19 @@ fn c03_gas_is_inherited_and_bounded() {
         // one instruction may start while at the limit (the check is after the fact); a forked child is not charged for its JUMPI
         if spent > limit + 100 + 10 * stages { witness("C03", "limits.gas_limit_respected", format!("fork chain code={code:02x?} gas_limit={limit}"), format!("a path consumed at least {spent} gas"), format!("about {limit}")); }
     }
-    println!("CASES c03_gas 2");
+    // no forks at all: 400 x (PUSH0 POP) costs 1600; every limit below that must cut the path short, in both error modes
+    let line: Vec<u8> = std::iter::repeat([0x5fu8, 0x50]).take(400).flatten().chain([0x00]).collect();
+    for permissive in [false, true] {
+        for limit in [50usize, 200, 777, 1500] {
+            let is = InstructionStream::try_from(line.as_slice()).unwrap();
+            let mut vm = VM::new(is, Config::default().with_gas_limit(limit).with_permissive_errors(permissive), LazyWatchdog.in_rc()).unwrap();
+            let _ = vm.execute();
+            let res = vm.consume();
+            for st in &res.states {
+                let executed: usize = (0..line.len() as u32).map(|ip| st.visited_instructions().visit_count(ip).unwrap_or(0)).sum();
+                if executed * 2 > limit + 2 + 2 { witness("C03", "limits.gas_limit_respected", format!("400 x (PUSH0 POP) gas_limit={limit} permissive={permissive}"), format!("{executed} instructions = {} gas", executed * 2), format!("<= {limit} (+ one instruction)")); }
+            }
+        }
+    }
+    println!("CASES c03_gas 10");
 }
